@@ -288,11 +288,15 @@ class _Tracker:
     def __init__(self, griffe):
         self.born_from_wildcard = set()
         self.linked = set()
+        self.born_dangling = set()
         tracker = self
 
         class Ext(griffe.Extension):
             def on_wildcard_expansion(self, *, alias, loader, **kwargs):
                 tracker.born_from_wildcard.add(id(alias))
+                t = alias._target
+                if t is not None and t.is_alias and t._target is None:
+                    tracker.born_dangling.add(id(alias))  # constructed "resolved" on top of an unresolved alias
 
         self.ext = Ext()
 
@@ -626,6 +630,7 @@ def _check_structure(ctx, g, coll, tracker, all_pkgs, budget_mode=False):
         born = id(a) in tracker.born_from_wildcard
         view = False
         linked = False
+        prev = None
         while t.is_alias:
             linked = linked or id(t) in tracker.linked
             if t._parent is not None and t._parent.is_alias:
@@ -638,12 +643,13 @@ def _check_structure(ctx, g, coll, tracker, all_pkgs, budget_mode=False):
             if t._target is None:
                 partial = True
                 break
+            prev = t
             t = t._target
         if partial and linked:
             ctx.probe("partial-chain-made-by-direct-retarget")  # the caller pointed an alias at an unresolved alias
             continue
         if partial:
-            ctx.fail("I3-partial-chain", f"alias {_apath(a)} is marked resolved but its chain stops at the unresolved link {_apath(t)} -> {t.target_path}", tags=(["chain-through-wildcard-born-alias"] if born else []) + (["chain-through-alias-member-view"] if view else []))
+            ctx.fail("I3-partial-chain", f"alias {_apath(a)} is marked resolved but its chain stops at the unresolved link {_apath(t)} -> {t.target_path}", tags=(["wildcard-born-alias-constructed-on-unresolved-alias"] if prev is not None and id(prev) in tracker.born_dangling else (["chain-through-alias-member-view"] if view else ["retargeted-onto-unresolved-alias"])))
             return False
         if cyclic:
             ctx.probe("resolved-cycle")
